@@ -172,7 +172,8 @@ func (dw *DiskWriter) HandleChange(kind ChangeKind, p string, fi os.FileInfo, er
 			return errors.Wrapf(err, "failed to create dir %s", newPath)
 		}
 		dw.dirModTimes[destPath] = statCopy.ModTime
-	case fi.Mode()&os.ModeDevice != 0 || fi.Mode()&os.ModeNamedPipe != 0:
+	case (fi.Mode()&os.ModeDevice != 0 || fi.Mode()&os.ModeNamedPipe != 0) && statCopy.Linkname == "":
+		// (a later name of a hard-linked device or fifo is linked below, like a regular file)
 		if err := handleTarTypeBlockCharFifo(newPath, statCopy); err != nil {
 			return errors.Wrapf(err, "failed to create device %s", newPath)
 		}
